@@ -7,3 +7,4 @@ open Pcore.Lat
 #print axioms C01_full_fails_iterable_binary
 #print axioms C01_sfh_witness
 #print axioms C01_unsound_only_by_rule
+#print axioms C01_sound_type_receiver
